@@ -4,7 +4,7 @@ From Coq Require Import List ZArith Bool Lia Permutation.
 From SVC Require Import Base.AMap Base.Res Base.Dec Model.Types Model.Pricing
   Model.Handlers Model.EndBlock Model.Step Proofs.Inv Proofs.Lemmas Proofs.InvWf
   Proofs.InvBank Proofs.InvIndex Proofs.InvEarn Proofs.InvSched Proofs.InvCtx
-  Proofs.InvEscrow Proofs.InvReq.
+  Proofs.InvEscrow Proofs.InvReq Proofs.InvWd.
 Import ListNotations.
 Open Scope Z_scope.
 
@@ -23,6 +23,7 @@ Proof.
   - now apply I_ctx_init.
   - apply I_req_init.
   - now apply I_time_init.
+  - now apply I_wd_init.
 Qed.
 
 Theorem Inv_msg cfg s o s' :
@@ -41,6 +42,7 @@ Proof.
   - eapply I_ctx_msg; eauto.
   - eapply I_req_msg; eauto.
   - eapply I_time_msg; eauto.
+  - eapply I_wd_msg; eauto.
 Qed.
 
 Theorem Inv_expire_one cfg s c :
@@ -59,6 +61,7 @@ Proof.
   - now apply I_ctx_expire_one.
   - now apply I_req_expire_one.
   - now apply I_time_expire_one.
+  - now apply I_wd_expire_one.
 Qed.
 
 Theorem Inv_new_one cfg s c :
@@ -77,6 +80,7 @@ Proof.
   - now apply I_ctx_new_one.
   - now apply I_req_new_one.
   - now apply I_time_new_one.
+  - now apply I_wd_new_one.
 Qed.
 
 (* ---- the two phases of EndBlock ---- *)
@@ -192,6 +196,7 @@ Proof.
   - apply I_ctx_tick; [apply I2|assumption].
   - apply I_req_tick, I2.
   - apply I_time_tick; [apply I2|assumption].
+  - apply I_wd_tick, I2.
 Qed.
 
 Theorem Inv_step cfg s o :
